@@ -6,6 +6,7 @@ can rewrite chunk text with the comment/string options at their defaults (shared
 output only through add_char / add_text.
 Not decided: the re-flow / re-indent arithmetic of the comment writers.
 """
+import re
 from ..facts import expr_str, walk, enum_consts
 from . import common_effects, c08
 
@@ -203,9 +204,116 @@ def rule_continuation_count_per_line(ctx):
     r.floor(1)
 
 
+NOT_COMMENT_NAV = re.compile(r"->(GetNextNc\w*|GetPrevNc\w*|GetNextNnl\w*Nc\w*|GetNextNl|GetPrevNl|GetClosingParen|GetOpeningParen|GetNextType|GetPrevType|GetNextString|GetPrevString)\(")
+
+
+def _not_comment_fact(s, pol, x):
+    """does the controlling fact (text s, polarity pol) say that chunk x is not a comment"""
+    m = re.match(r"^%s = .*->(IsNewline|IsSemicolon)\(\)$" % re.escape(x), s)
+    if m:                                               # if ((x = ...)->IsNewline())
+        return pol is True
+    if " || " in s and " && " not in s:
+        return pol is True and all(_not_comment_fact(t.strip(), True, x) for t in s.split(" || "))
+    if not s.startswith(x + "->") and not s.startswith("!" + x + "->") and not ("(" + x + "->") in s:
+        return False
+    m = re.match(r"^%s->Is\((CT_\w+)\)$" % re.escape(x), s)
+    if m:
+        return pol is True and not m.group(1).startswith("CT_COMMENT")
+    if s in (x + "->IsNewline()", x + "->IsSemicolon()", x + "->IsVBrace()", x + "->IsBraceOpen()", x + "->IsBraceClose()", x + "->IsParenOpen()",
+             x + "->IsParenClose()", x + "->IsNullChunk()"):
+        return pol is True
+    if s in (x + "->IsComment()", x + "->IsCommentOrNewline()", x + "->IsCommentNewlineOrPreproc()"):
+        return pol is False
+    if s == "!" + x + "->IsComment()":
+        return pol is True
+    if re.match(r"^strcmp\(%s->Text\(\), \"[^\"/]*\"\) == 0$" % re.escape(x), s) or re.match(r"^%s->IsString\(\"[^\"/]*\"(, \w+)?\)$" % re.escape(x), s):
+        return pol is True
+    return False
+
+
+def rule_deletes_spare_comments(ctx):
+    """`every comment of the input appears exactly once in the output`: a pass may delete chunks, but not a comment chunk"""
+    from ..flow import ReachingDefs, var_id
+    db = ctx.db
+    r = ctx.rule("deletes-spare-comments", "every Chunk::Delete(x) outside the teardown is controlled by a fact that x is not a comment (a type test "
+                 "for a non-comment type, IsNewline/IsSemicolon/..., !IsComment, a text comparison), or x comes only from a navigation that "
+                 "skips comments (GetNextNc*, GetClosingParen, GetNextType...), or x is a parameter and every caller's argument is "
+                 "such a chunk")
+    rds = {}
+
+    def rd_of(f):
+        if f.key not in rds:
+            rds[f.key] = ReachingDefs(f, db)
+        return rds[f.key]
+
+    def safe(f, site, arg, depth=0):
+        """site: node at which chunk expression node `arg` must not be a comment"""
+        x = expr_str(f, arg)
+        for cn, pol in f.guard_conds(f.nblock[site["i"]]):
+            if cn is not None and _not_comment_fact(expr_str(f, cn), pol, x):
+                return True
+        a = f.nodes.get(arg)
+        while a is not None and a["k"] == "cast":
+            a = f.nodes.get(a["a"][0])
+        if a is None:
+            return False
+        if a["k"] == "call":
+            return bool(NOT_COMMENT_NAV.search(x))
+        if a["k"] != "ref" or a.get("d") not in ("lv", "pv"):
+            return False
+        defs = rd_of(f).at(site["i"], var_id(a))
+        is_param = a.get("d") == "pv"
+        if defs:
+            ok = True
+            for info in defs:
+                rhs = rd_of(f).rhs_of(info)
+                if rhs is None and info[0] == "byref" and info[1].get("c") == "Chunk::Delete":
+                    continue                          # Chunk::Delete(x) leaves x = the null chunk
+                if rhs is None:
+                    return False
+                rs = expr_str(f, rhs)
+                if NOT_COMMENT_NAV.search(rs) or rs in ("Chunk::NullChunkPtr", "NullChunkPtr"):
+                    continue                          # Chunk::Delete() returns at once on the null chunk
+                rn = f.nodes.get(rhs)
+                while rn is not None and rn["k"] == "cast":
+                    rn = f.nodes.get(rn["a"][0])
+                if rn is not None and rn["k"] == "ref" and depth < 3 and safe(f, info[1], rhs, depth + 1):
+                    continue
+                ok = False
+            if ok and not is_param:
+                return True
+            if not ok:
+                return False
+        if is_param and depth < 2:
+            idx = [i for i, p in enumerate(f.d.get("params", ())) if p["n"] == a["n"]]
+            callers = db.callers_of_key(f.key)
+            if not idx or not callers:
+                return False
+            for g, c in callers:
+                if len(c.get("a", ())) <= idx[0] or not safe(g, c, c["a"][idx[0]], depth + 1):
+                    return False
+            return True
+        return False
+
+    n = 0
+    for f in sorted(db.funcs.values(), key=lambda g: (g.file, g.l0)):
+        if not f.file.startswith("src/"):
+            continue
+        for c in db.calls_in(f, "Chunk::Delete"):
+            if not c.get("a"):
+                continue
+            n += 1
+            r.seen()
+            x = expr_str(f, c["a"][0])
+            r.check(safe(f, c, c["a"][0]), "%s/Delete(%s)" % (f.qn.split("::")[-1], x), db.loc(f, c),
+                    "nothing says that `%s` is not a comment when it is deleted" % x)
+    r.require(n >= 45, "only %d Chunk::Delete call sites found" % n)
+    r.floor(45)
+
+
 def rule_newline_crossing(ctx):
     from .common_effects import newline_crossing_rule
     newline_crossing_rule(ctx)
 
 
-RULES = [rule_literal_flag_agreement, rule_comment_dispatch, rule_effects, rule_raw_write, rule_newline_crossing, rule_stuck_iteration, rule_continuation_count_per_line]
+RULES = [rule_literal_flag_agreement, rule_comment_dispatch, rule_effects, rule_raw_write, rule_newline_crossing, rule_stuck_iteration, rule_continuation_count_per_line, rule_deletes_spare_comments]
